@@ -515,8 +515,13 @@ def run(c, facts, tier):
             for l in lits:
                 lexmap[l] = val
                 guards[l] = guard
-        elif a0["t"] == "map" and unwrap(a0["p"])["t"] == "ref":
-            classes[rx.path_str(a0["f"]) or src(a0["f"])] = unwrap(a0["p"])["fn"]
+        elif a0["t"] == "map":
+            inner = unwrap(a0["p"])
+            if inner["t"] == "seq":
+                kept = [unwrap(i["p"]) for i in inner["items"] if i["keep"]]
+                inner = kept[0] if len(kept) == 1 else inner
+            if inner["t"] == "ref":
+                classes[rx.path_str(a0["f"]) or src(a0["f"])] = inner["fn"]
     te = spec["token_enum"]
     for word, tk in spec["lex"].items():
         c.ob(
